@@ -647,7 +647,7 @@ def fw_late_await(order=('A', 'B')):
     """A forwards to B; a handler of A registered after the forward awaits a child, so the forwarded event is processed on B
     (inline) while that handler of A is still running: the event is in flight on two buses at once."""
     cfg = forward_chain(2, topo='chain', order=order)
-    cfg['late_handlers'] = [['A', '*', 'hLate', [['dispawait', 'A', 'C', 'C_{inv}'], ['sleep', 'd1'], ['ret', 'late']]]]
+    cfg['late_handlers'] = [['A', '*', 'hLate', [['only', 'P'], ['dispawait', 'A', 'C', 'C_{inv}'], ['sleep', 'd1'], ['ret', 'late']]]]
     cfg['handlers'] += [['A', 'C', 'hCA', [['ret', 'c']], {'sync': True}], ['B', 'C', 'hCB', [['ret', 'c']], {'sync': True}]]
     return cfg
 
@@ -686,3 +686,16 @@ def wal_unserialisable():
     handlers = [['A', 'P', 'hP', [['sleep', 'd1'], ['ret', 'p']]], ['A', 'U', 'hU', [['ret', 'u']]], ['A', 'L', 'hL', [['ret', 'l']]]]
     main = [['root', 'A', 'P', 'P1'], ['root', 'A', 'U', 'U1'], ['root', 'A', 'L', 'L1'], ['idle', 'A'], ['obs_all', 'end']]
     return dict(buses=['A'], wal=['A'], reals={'d1': ['0', '1/5']}, handlers=handlers, main=main, horizon=5)
+
+
+
+def timeout_during_wal(T='1/4'):
+    """a bus with a WAL whose writes take a symbolic time dw: the parent handler's time-out can land while the awaited child's WAL line
+    is being written (inside the parent handler's task)."""
+    from fractions import Fraction
+    hi = str(2 * Fraction(T))
+    handlers = [['A', 'P', 'hP', [['sleep', 'd1'], ['dispawait', 'A', 'C', 'C1'], ['sleep', '1/10'], ['ret', 'p']]],
+                ['A', 'C', 'hC', [['ret', 'c']], {'sync': True}], ['A', 'L', 'hL', [['ret', 'l']], {'sync': True}]]
+    main = [['root', 'A', 'P', 'P1'], ['idle', 'A'], ['root', 'A', 'L', 'L1'], ['idle', 'A'], ['obs_all', 'end']]
+    return dict(buses=['A'], wal=['A'], wal_io='dw', reals={'d1': ['0', hi], 'dw': ['0', hi]}, handlers=handlers, main=main, horizon=6,
+                timeouts={'P1': T}, T=T, m2=True)
